@@ -1,6 +1,15 @@
 import Morlock.Proofs.ABTTQuiesce
+import Morlock.Proofs.ABFuel
 /-!
 # Table soundness: definitions and the `TTState.read` / `TTState.write` lemmas (helper for C11 / C12)
+
+The hypotheses about draws and hashes are stated **on a region**: a depth-indexed set of positions
+`R : Nat → P → Prop` (`R n p`: the search may visit `p` with remaining depth `n`) that is `Closed` under the
+steps the search makes (an explored legal move from a position of `R (n+1)` leads into `R n`). The smallest
+such region containing the root is `Tree g ex root d` (positions reached from `root` by `k ≤ d` explored legal
+moves, at remaining depth `d - k`). The global forms `RootFree` / `NoDraw` / `HashOK` / `Sound` (quantifying over
+the whole state type - false for state types with junk states such as `World`) are the special case
+`R = Everywhere`.
 -/
 namespace Morlock.Proofs.AB
 open Morlock Morlock.Model Morlock.Model.Score Morlock.Spec
@@ -16,60 +25,280 @@ def V' (g : Game P) (ex : Explore) (le : LeafEval) : Nat → P → Score
     else if !legalAny g p (g.moves p) then terminal g p
     else ((kids g ex p (g.moves p)).map fun c => lift (V' g ex le d c)).foldl Score.max negInfScore
 
-/-- No draw can be claimed anywhere. -/
+/-! ## Regions -/
+
+/-- One step of the search: an explored legal move of the generated list. -/
+def Step (g : Game P) (ex : Explore) (p c : P) : Prop :=
+  ∃ m, m ∈ g.moves p ∧ ex.pick m = true ∧ g.push p m = some c
+
+/-- A depth-indexed set of positions closed under the steps of the search. -/
+def Closed (g : Game P) (ex : Explore) (R : Nat → P → Prop) : Prop :=
+  ∀ n p m c, R (n + 1) p → m ∈ g.moves p → ex.pick m = true → g.push p m = some c → R n c
+
+/-- The trivial region: every state at every depth. -/
+def Everywhere : Nat → P → Prop := fun _ _ => True
+
+theorem closed_everywhere (g : Game P) (ex : Explore) : Closed g ex (Everywhere (P := P)) :=
+  fun _ _ _ _ _ _ _ _ => trivial
+
+/-- `q` is reached from `p` by exactly `k` steps. -/
+def Reach (g : Game P) (ex : Explore) : Nat → P → P → Prop
+  | 0, p, q => q = p
+  | k + 1, p, q => ∃ q', Reach g ex k p q' ∧ Step g ex q' q
+
+/-- The search tree of depth `d` below `root`: `Tree g ex root d n q` iff `q` is reached from `root` by
+    `d - n` explored legal moves (`n ≤ d` is the remaining depth at `q`). -/
+def Tree (g : Game P) (ex : Explore) (root : P) (d : Nat) : Nat → P → Prop :=
+  fun n q => ∃ k, k + n = d ∧ Reach g ex k root q
+
+theorem tree_root (g : Game P) (ex : Explore) (root : P) (d : Nat) : Tree g ex root d d root :=
+  ⟨0, by omega, rfl⟩
+
+theorem tree_closed (g : Game P) (ex : Explore) (root : P) (d : Nat) : Closed g ex (Tree g ex root d) := by
+  intro n p m c ⟨k, hk, hr⟩ hm hp hpush
+  exact ⟨k + 1, by omega, p, hr, m, hm, hp, hpush⟩
+
+/-- The tree is the smallest closed region containing the root at depth `d`. -/
+theorem tree_least {g : Game P} {ex : Explore} {R : Nat → P → Prop} (hcl : Closed g ex R) {root : P} {d : Nat}
+    (hroot : R d root) : ∀ n q, Tree g ex root d n q → R n q := by
+  intro n q ⟨k, hk, hr⟩
+  induction k generalizing n q with
+  | zero => cases hr; have : n = d := by omega
+            rw [this]; exact hroot
+  | succ k ih =>
+    obtain ⟨q', hq', m, hm, hp, hpush⟩ := hr
+    exact hcl n q' m q (ih (n + 1) q' (by omega) hq') hm hp hpush
+
+/-- The union of the trees of a list of searches `(root, depth)`. -/
+def Trees (g : Game P) (ex : Explore) (l : List (P × Nat)) : Nat → P → Prop :=
+  fun n q => ∃ pd ∈ l, Tree g ex pd.1 pd.2 n q
+
+theorem trees_closed (g : Game P) (ex : Explore) (l : List (P × Nat)) : Closed g ex (Trees g ex l) := by
+  intro n p m c ⟨pd, hpd, ht⟩ hm hp hpush
+  exact ⟨pd, hpd, tree_closed g ex pd.1 pd.2 n p m c ht hm hp hpush⟩
+
+/-- The positions `k` steps below `root`, as a list (in search order, with multiplicity). -/
+def level (g : Game P) (ex : Explore) (root : P) : Nat → List P
+  | 0 => [root]
+  | k + 1 => (level g ex root k).flatMap fun q => kids g ex q (g.moves q)
+
+theorem kids_iff {g : Game P} {ex : Explore} {p c : P} : c ∈ kids g ex p (g.moves p) ↔ Step g ex p c := by
+  constructor
+  · exact mem_kids
+  · rintro ⟨m, hm, hp, hpush⟩
+    unfold kids
+    simp only [List.mem_filterMap]
+    exact ⟨m, hm, by simp [hp, hpush]⟩
+
+theorem reach_iff_level (g : Game P) (ex : Explore) (root : P) :
+    ∀ k q, Reach g ex k root q ↔ q ∈ level g ex root k := by
+  intro k
+  induction k with
+  | zero => intro q; simp [Reach, level]
+  | succ k ih =>
+    intro q
+    simp only [Reach, level, List.mem_flatMap]
+    constructor
+    · rintro ⟨q', h1, h2⟩; exact ⟨q', (ih q').1 h1, kids_iff.2 h2⟩
+    · rintro ⟨q', h1, h2⟩; exact ⟨q', (ih q').2 h1, kids_iff.1 h2⟩
+
+/-- All positions of the tree of depth `d`, as a list. -/
+def treeList (g : Game P) (ex : Explore) (root : P) (d : Nat) : List P :=
+  (List.range (d + 1)).flatMap (level g ex root)
+
+theorem reach_trans {g : Game P} {ex : Explore} {root p : P} {k : Nat} (h : Reach g ex k root p) :
+    ∀ (j : Nat) (q : P), Reach g ex j p q → Reach g ex (k + j) root q := by
+  intro j
+  induction j with
+  | zero => intro q hq; cases hq; exact h
+  | succ j ih =>
+    intro q ⟨q', hq', hs⟩
+    exact ⟨q', ih q' hq', hs⟩
+
+/-- The tree below a position `k` steps below `root` is part of the tree below `root`, `k` levels deeper. -/
+theorem tree_sub {g : Game P} {ex : Explore} {root p : P} {k : Nat} (h : Reach g ex k root p) (d : Nat) :
+    ∀ n q, Tree g ex p d n q → Tree g ex root (k + d) n q := by
+  intro n q ⟨j, hj, hr⟩
+  exact ⟨k + j, by omega, reach_trans h j q hr⟩
+
+theorem tree_mem_treeList {g : Game P} {ex : Explore} {root : P} {d n : Nat} {q : P}
+    (h : Tree g ex root d n q) {D : Nat} (hD : d ≤ D) : q ∈ treeList g ex root D := by
+  obtain ⟨k, hk, hr⟩ := h
+  simp only [treeList, List.mem_flatMap, List.mem_range]
+  exact ⟨k, by omega, (reach_iff_level g ex root k q).1 hr⟩
+
+/-- Cover of the tree below a position of the tree. -/
+theorem tree_mem_treeList_of_reach {g : Game P} {ex : Explore} {root p : P} {k : Nat} (h : Reach g ex k root p)
+    {d n : Nat} {q : P} (ht : Tree g ex p d n q) {D : Nat} (hD : k + d ≤ D) : q ∈ treeList g ex root D :=
+  tree_mem_treeList (tree_sub h d n q ht) hD
+
+/-- All positions of the trees of a list of searches, as a list. -/
+def treesList (g : Game P) (ex : Explore) (l : List (P × Nat)) : List P :=
+  l.flatMap fun pd => treeList g ex pd.1 pd.2
+
+theorem trees_mem_treesList {g : Game P} {ex : Explore} {l : List (P × Nat)} {n : Nat} {q : P}
+    (h : Trees g ex l n q) : q ∈ treesList g ex l := by
+  obtain ⟨pd, hpd, ht⟩ := h
+  simp only [treesList, List.mem_flatMap]
+  exact ⟨pd, hpd, tree_mem_treeList ht (Nat.le_refl _)⟩
+
+/-! ## Draws and hashes on a region -/
+
+/-- No position of the region can be claimed drawn. -/
+def NoDrawOn (g : Game P) (R : Nat → P → Prop) : Prop := ∀ n p, R n p → g.isDraw p = false
+
+/-- No drawn position of the region sits at the ply of the search root (so the root exception of `V` never
+    fires inside the region). -/
+def RootFreeOn (g : Game P) (R : Nat → P → Prop) (rootPly : Int) : Prop :=
+  ∀ n p, R n p → g.isDraw p = true → g.ply p ≠ rootPly
+
+theorem NoDrawOn.rootFreeOn {g : Game P} {R : Nat → P → Prop} (h : NoDrawOn g R) (r : Int) : RootFreeOn g R r := by
+  intro n p hR hp; rw [h n p hR] at hp; cases hp
+
+theorem RootFreeOn.mono {g : Game P} {R R' : Nat → P → Prop} {r : Int} (h : RootFreeOn g R r)
+    (hsub : ∀ n q, R' n q → R n q) : RootFreeOn g R' r := fun n p hp => h n p (hsub n p hp)
+
+theorem NoDrawOn.mono {g : Game P} {R R' : Nat → P → Prop} (h : NoDrawOn g R)
+    (hsub : ∀ n q, R' n q → R n q) : NoDrawOn g R' := fun n p hp => h n p (hsub n p hp)
+
+/-- No draw can be claimed anywhere (global form: the whole state type). -/
 def NoDraw (g : Game P) : Prop := ∀ p, g.isDraw p = false
 
-/-- No drawn position sits at the ply of the search root (so the root exception of `V` never fires). -/
+/-- No drawn position sits at the ply of the search root (global form: the whole state type). -/
 def RootFree (g : Game P) (rootPly : Int) : Prop := ∀ p, g.isDraw p = true → g.ply p ≠ rootPly
 
 theorem NoDraw.rootFree {g : Game P} (h : NoDraw g) (r : Int) : RootFree g r := by
   intro p hp; rw [h p] at hp; cases hp
 
-theorem draw_cond {g : Game P} {r : Int} (h : RootFree g r) (p : P) :
-    (!(g.ply p == r) && g.isDraw p) = g.isDraw p := by
+theorem RootFree.on {g : Game P} {r : Int} (h : RootFree g r) (R : Nat → P → Prop) : RootFreeOn g R r :=
+  fun _ p _ hp => h p hp
+
+theorem NoDraw.on {g : Game P} (h : NoDraw g) (R : Nat → P → Prop) : NoDrawOn g R := fun _ p _ => h p
+
+theorem draw_cond {g : Game P} {R : Nat → P → Prop} {r : Int} (h : RootFreeOn g R r) {n : Nat} {p : P}
+    (hp : R n p) : (!(g.ply p == r) && g.isDraw p) = g.isDraw p := by
   cases hd : g.isDraw p with
   | false => simp
   | true =>
-    have := h p hd
+    have := h n p hp hd
     simp [this]
 
-/-- Under `RootFree` the reference value `V` does not depend on the root ply: it is `V'`. -/
-theorem V_eq_V' {g : Game P} (ex : Explore) (le : LeafEval) {r : Int} (h : RootFree g r) :
-    ∀ d p, V g ex le r d p = V' g ex le d p := by
+/-- Under `RootFreeOn` the reference value `V` does not depend on the root ply inside the region: it is `V'`. -/
+theorem V_eq_V'_on {g : Game P} (ex : Explore) (le : LeafEval) {R : Nat → P → Prop} {r : Int}
+    (hcl : Closed g ex R) (h : RootFreeOn g R r) :
+    ∀ d p, R d p → V g ex le r d p = V' g ex le d p := by
   intro d
   induction d with
-  | zero => intro p; simp only [V, V', draw_cond h]
+  | zero => intro p hp; simp only [V, V', draw_cond h hp]
   | succ d ih =>
-    intro p
-    simp only [V, V', draw_cond h]
-    have : (fun c => lift (V g ex le r d c)) = fun c => lift (V' g ex le d c) := by
-      funext c; rw [ih c]
+    intro p hp
+    simp only [V, V', draw_cond h hp]
+    have : (kids g ex p (g.moves p)).map (fun c => lift (V g ex le r d c)) =
+        (kids g ex p (g.moves p)).map (fun c => lift (V' g ex le d c)) := by
+      apply List.map_congr_left
+      intro c hc
+      obtain ⟨m, hm, hpk, hpush⟩ := mem_kids hc
+      rw [ih c (hcl d p m c hp hm hpk hpush)]
     rw [this]
 
-/-- Positions with the same hash have the same value at every depth. -/
+/-- Global form of `V_eq_V'_on`. -/
+theorem V_eq_V' {g : Game P} (ex : Explore) (le : LeafEval) {r : Int} (h : RootFree g r) :
+    ∀ d p, V g ex le r d p = V' g ex le d p :=
+  fun d p => V_eq_V'_on ex le (closed_everywhere g ex) (h.on _) d p trivial
+
+/-- Two positions of the region with the same hash have the same value at every remaining depth at which
+    both occur. -/
+def HashOKOn (g : Game P) (ex : Explore) (le : LeafEval) (U : Nat → P → Prop) : Prop :=
+  ∀ n p q, U n p → U n q → g.hash p = g.hash q → V' g ex le n p = V' g ex le n q
+
+/-- Positions with the same hash have the same value at every depth (global form). -/
 def HashOK (g : Game P) (ex : Explore) (le : LeafEval) : Prop :=
   ∀ p q, g.hash p = g.hash q → ∀ d, V' g ex le d p = V' g ex le d q
+
+theorem HashOK.on {g : Game P} {ex : Explore} {le : LeafEval} (h : HashOK g ex le) (U : Nat → P → Prop) :
+    HashOKOn g ex le U := fun n p q _ _ hpq => h p q hpq n
+
+theorem HashOKOn.mono {g : Game P} {ex : Explore} {le : LeafEval} {U U' : Nat → P → Prop}
+    (h : HashOKOn g ex le U) (hsub : ∀ n q, U' n q → U n q) : HashOKOn g ex le U' :=
+  fun n p q hp hq => h n p q (hsub n p hp) (hsub n q hq)
 
 theorem hashOK_of_injective {g : Game P} (ex : Explore) (le : LeafEval)
     (h : ∀ p q, g.hash p = g.hash q → p = q) : HashOK g ex le := by
   intro p q hpq d; rw [h p q hpq]
 
+/-- The hash is injective on the region. -/
+theorem hashOKOn_of_injOn {g : Game P} (ex : Explore) (le : LeafEval) {U : Nat → P → Prop}
+    (h : ∀ n p q, U n p → U n q → g.hash p = g.hash q → p = q) : HashOKOn g ex le U := by
+  intro n p q hp hq hpq; rw [h n p q hp hq hpq]
+
+theorem inj_of_nodup_map {α β : Type} (f : α → β) : ∀ (l : List α), (l.map f).Nodup →
+    ∀ a ∈ l, ∀ b ∈ l, f a = f b → a = b := by
+  intro l
+  induction l with
+  | nil => intro _ a ha; cases ha
+  | cons x xs ih =>
+    intro hnd a ha b hb hab
+    simp only [List.map_cons, List.nodup_cons, List.mem_map, not_exists, not_and] at hnd
+    rcases List.mem_cons.1 ha with rfl | ha' <;> rcases List.mem_cons.1 hb with rfl | hb'
+    · rfl
+    · exact absurd hab.symm (hnd.1 b hb')
+    · exact absurd hab (hnd.1 a ha')
+    · exact ih hnd.2 a ha' b hb' hab
+
+/-- **Checkable sufficient condition for `HashOKOn`**: the region is covered by a list of positions with
+    pairwise distinct hashes. -/
+theorem hashOKOn_of_list {g : Game P} (ex : Explore) (le : LeafEval) {U : Nat → P → Prop} (L : List P)
+    (hcov : ∀ n q, U n q → q ∈ L) (hnd : (L.map g.hash).Nodup) : HashOKOn g ex le U :=
+  hashOKOn_of_injOn ex le fun n p q hp hq hpq => inj_of_nodup_map g.hash L hnd p (hcov n p hp) q (hcov n q hq) hpq
+
+/-- **Checkable sufficient condition for `NoDrawOn`**: the region is covered by a list of positions none of
+    which is drawn. -/
+theorem noDrawOn_of_list {g : Game P} {U : Nat → P → Prop} (L : List P)
+    (hcov : ∀ n q, U n q → q ∈ L) (hall : (L.all fun q => !g.isDraw q) = true) : NoDrawOn g U := by
+  intro n q hq
+  have := List.all_eq_true.1 hall q (hcov n q hq)
+  simpa using this
+
+/-- Every exact entry of the table is the true value, at the stored depth, of every position of the region
+    (at that remaining depth) with the stored hash. -/
+def SoundOn (g : Game P) (ex : Explore) (le : LeafEval) (U : Nat → P → Prop) (t : TTState) : Prop :=
+  ∀ e, some e ∈ t.slots → e.bound = 0 → ∀ p, U e.depth p → g.hash p = e.hash → e.score = V' g ex le e.depth p
+
 /-- Every exact entry of the table is the true value, at the stored depth, of every position with the
-    stored hash. -/
+    stored hash (global form). -/
 def Sound (g : Game P) (ex : Explore) (le : LeafEval) (t : TTState) : Prop :=
   ∀ e, some e ∈ t.slots → e.bound = 0 → ∀ p, g.hash p = e.hash → e.score = V' g ex le e.depth p
+
+theorem sound_iff_on {g : Game P} {ex : Explore} {le : LeafEval} {t : TTState} :
+    Sound g ex le t ↔ SoundOn g ex le Everywhere t :=
+  ⟨fun h e he hb p _ hp => h e he hb p hp, fun h e he hb p hp => h e he hb p trivial hp⟩
+
+theorem Sound.on {g : Game P} {ex : Explore} {le : LeafEval} {t : TTState} (h : Sound g ex le t)
+    (U : Nat → P → Prop) : SoundOn g ex le U t := fun e he hb p _ hp => h e he hb p hp
+
+theorem SoundOn.mono {g : Game P} {ex : Explore} {le : LeafEval} {t : TTState} {U U' : Nat → P → Prop}
+    (h : SoundOn g ex le U t) (hsub : ∀ n q, U' n q → U n q) : SoundOn g ex le U' t :=
+  fun e he hb p hp => h e he hb p (hsub _ p hp)
+
+theorem soundOn_new (g : Game P) (ex : Explore) (le : LeafEval) (U : Nat → P → Prop) (size : Nat) (minDepth : Int) :
+    SoundOn g ex le U (TTState.new size minDepth) := by
+  intro e he
+  simp [TTState.new] at he
 
 theorem sound_new (g : Game P) (ex : Explore) (le : LeafEval) (size : Nat) (minDepth : Int) :
     Sound g ex le (TTState.new size minDepth) := by
   intro e he
   simp [TTState.new] at he
 
-theorem sound_empty (g : Game P) (ex : Explore) (le : LeafEval) {t : TTState} (h : t.slots.size = 0) :
-    Sound g ex le t := by
+theorem soundOn_empty (g : Game P) (ex : Explore) (le : LeafEval) (U : Nat → P → Prop) {t : TTState}
+    (h : t.slots.size = 0) : SoundOn g ex le U t := by
   intro e he
   have : t.slots = #[] := Array.eq_empty_of_size_eq_zero h
   rw [this] at he
   simp at he
+
+theorem sound_empty (g : Game P) (ex : Explore) (le : LeafEval) {t : TTState} (h : t.slots.size = 0) :
+    Sound g ex le t := sound_iff_on.2 (soundOn_empty g ex le _ h)
 
 theorem read_some {t : TTState} {h : Nat} {e : TTEntry} (hr : t.read h = some e) :
     some e ∈ t.slots ∧ e.hash = h := by
@@ -95,10 +324,11 @@ theorem u16_nat (n : Nat) (h : n < 65536) : u16 ((n : Nat) : Int) = n := by
   unfold u16; omega
 
 /-- Writing a true value keeps the table sound. -/
-theorem write_sound {g : Game P} {ex : Explore} {le : LeafEval} {t : TTState} (hs : Sound g ex le t)
+theorem write_soundOn {g : Game P} {ex : Explore} {le : LeafEval} {U : Nat → P → Prop} {t : TTState}
+    (hs : SoundOn g ex le U t)
     (h : Nat) (ply depth : Int) (s : Score) (m : Move)
-    (hv : ∀ p, g.hash p = h → s = V' g ex le (u16 depth) p) :
-    Sound g ex le (t.write h 0 ply depth s m).1 := by
+    (hv : ∀ p, U (u16 depth) p → g.hash p = h → s = V' g ex le (u16 depth) p) :
+    SoundOn g ex le U (t.write h 0 ply depth s m).1 := by
   unfold TTState.write
   split
   · exact hs
@@ -107,11 +337,17 @@ theorem write_sound {g : Game P} {ex : Explore} {le : LeafEval} {t : TTState} (h
     · dsimp only
       split
       · exact hs
-      · intro e he hb p hp
+      · intro e he hb p hU hp
         dsimp only at he
         rcases Array.mem_or_eq_of_mem_setIfInBounds he with he | he
-        · exact hs e he hb p hp
+        · exact hs e he hb p hU hp
         · cases he
-          exact hv p hp
+          exact hv p hU hp
+
+theorem write_sound {g : Game P} {ex : Explore} {le : LeafEval} {t : TTState} (hs : Sound g ex le t)
+    (h : Nat) (ply depth : Int) (s : Score) (m : Move)
+    (hv : ∀ p, g.hash p = h → s = V' g ex le (u16 depth) p) :
+    Sound g ex le (t.write h 0 ply depth s m).1 :=
+  sound_iff_on.2 (write_soundOn (sound_iff_on.1 hs) h ply depth s m (fun p _ hp => hv p hp))
 
 end Morlock.Proofs.AB
